@@ -743,7 +743,6 @@ func init() {
 		if E.wgCount[p] < 0 {
 			panic(targetPanic{iface{fr.i.runtimeErrorString, "sync: negative WaitGroup counter"}})
 		}
-		E.yield(false)
 		return nil
 	}
 	ex["(*sync.WaitGroup).Wait"] = func(fr *frame, a []value) value {
